@@ -449,9 +449,10 @@ impl ToOrdinal {
             if number.len() > 3*numbers_large.len() {
                 return Some(number);
             }
-            if NO_DIGIT.is_match(&number) {
+            if number.is_empty() || NO_DIGIT.is_match(&number) {
                 // this shouldn't have been part of an mn, so likely an error. Log a warning
                 // FIX: log a warning that a non-number was passed to convert()
+                //  (an 'mn' that consists of block separators only, e.g. <mn>,</mn>, is empty after they are removed)
                 return Some(number);
             }
 
